@@ -53,6 +53,10 @@ def u2_wire(chars, ucs2, stray=False, length=None):
 # texts whose cleaning is the interesting part (code points; all below 0x100 so that both encodings carry them)
 U2_TEXTS = [
     [],
+    # single-byte characters whose bytes, put side by side, happen to be well-formed UTF-8 (Latin-1 is not UTF-8: every byte
+    # is one character of its own)
+    [0x43, 0x61, 0x66, 0xc3, 0xa9], [0xc2, 0xb0], [0xe2, 0x82, 0xac, 0x35], [0xf0, 0x9f, 0x98, 0x80], [0xc3, 0xa9, 0xc3, 0xa9, 0x41],
+    [0xd0, 0x9f, 0xd1, 0x80], [0xc3, 0xbf, 0x20, 0xc2, 0xa0],
     [0x41, ESC, 0x01, 0x1a, ESC, 0x42],              # escape made of control characters and an ESC
     [0x41, ESC, 0x00, 0x00, 0x00, 0x42],              # escape made of NULs
     [ESC, ESC, ESC, ESC, 0x58],                       # an escape swallows escapes
